@@ -44,3 +44,35 @@ def corrupt_and_expect_reject(ctx, module, trace_path, mutate, cfg=None, timeout
     if accepted:
         raise Infra("binding self-test failed: %s accepted a corrupted trace (%s)" % (module, desc))
     return desc, consumed
+
+
+def validate_multi(ctx, module, trace_path, reset_ev="new", cfg=None, timeout=900, max_rejects=8, heap=None):
+    """Validate a concatenation of traces; after a rejection continue with the next trace so that the
+    rest is still checked. Returns (n_events_total, [ (global_event_index, event_dict, preceding_events) ])."""
+    with open(trace_path) as f:
+        lines = [x for x in f if x.strip()]
+    rejects = []
+    base = 0
+    cur = lines
+    total = len(lines)
+    while cur and len(rejects) < max_rejects:
+        p = os.path.join(ctx.scratch, "seg-%s-%d.ndjson" % (module, base))
+        with open(p, "w") as f:
+            f.writelines(cur)
+        accepted, consumed, tot, r = validate(ctx, module, p, cfg=cfg, timeout=timeout, heap=heap)
+        if accepted:
+            break
+        if consumed < 0 or consumed >= len(cur):
+            raise Infra("trace validation failed without locating the event (%s)" % module)
+        ev = json.loads(cur[consumed])
+        # context: events of the same trace before the failing one
+        start = consumed
+        while start > 0 and json.loads(cur[start]).get("ev") != reset_ev:
+            start -= 1
+        rejects.append((base + consumed, ev, [json.loads(x) for x in cur[start:consumed]][-12:]))
+        nxt = consumed + 1
+        while nxt < len(cur) and json.loads(cur[nxt]).get("ev") != reset_ev:
+            nxt += 1
+        base += nxt
+        cur = cur[nxt:]
+    return total, rejects
